@@ -62,7 +62,7 @@ def gen_workload(tape, tier):
     rng = np.random.default_rng(tape.subseed("bam.bulk"))
 
     # --- BED first, so that reads can be aimed at bin edges -----------------
-    ncols = tape.choice([4, 3, 6], "bed.ncols")
+    ncols = tape.choice([4, 3, 6, 8, 12], "bed.ncols")  # 5 columns with name "-" is sniffed as a Picard interval list (C08 ground, not claimed here)
     n_bins = tape.weighted([(3, 2), (12, 4), (40, 3), (100, 1)], "bed.maxbins")
     n_bins = tape.between(1, n_bins, "bed.nbins")
     style = tape.choice(["tiled", "random", "mixed", "grid"], "bed.style")
@@ -163,6 +163,12 @@ def gen_workload(tape, tier):
                     flag |= bit
         if rng.random() < 0.5:
             flag |= FLAG_REVERSE
+        if rng.random() < 0.4:
+            # paired-end bits: none of them excludes a read
+            flag |= FLAG_PAIRED | (0x40 if rng.random() < 0.5 else 0x80)
+            for bit in (0x2, 0x8, 0x20):
+                if rng.random() < 0.4:
+                    flag |= bit
         mq = rng.random()
         if mq < 0.5:
             mapq = int(cutoffs[int(rng.integers(0, len(cutoffs)))])
@@ -185,7 +191,9 @@ def gen_workload(tape, tier):
             lines.append(f"{chrom}\t{s}\t{e}\t{name}\n")
         else:
             strand = "+" if (s + e) % 2 else "-"
-            lines.append(f"{chrom}\t{s}\t{e}\t{name}\t0\t{strand}\n")
+            fields = [chrom, str(s), str(e), name, str((s * 7 + e) % 1000), strand, str(s), str(e),
+                      "255,0,0", "1", f"{max(e - s, 0)},", "0,"]
+            lines.append("\t".join(fields[:ncols]) + "\n")
     return {
         "contigs": contigs,
         "reads": reads,
